@@ -7,6 +7,7 @@ package c12
 import (
 	"bufio"
 	"context"
+	"crypto/tls"
 	"fmt"
 	"net"
 	"net/http"
@@ -60,6 +61,9 @@ type Scenario struct {
 	Yields map[string]core.YieldSpec `json:"yields,omitempty"`
 	// Tunnel: the client runs RTSP over HTTP ("http"); the scripted server speaks the tunnel.
 	Tunnel string `json:"tunnel,omitempty"`
+	// Secure: rtsps - the scripted server speaks TLS (it still offers plain RTP: the handshake and the
+	// control channel are what is exercised, and what Close has to clean up).
+	Secure bool `json:"secure,omitempty"`
 }
 
 var clientSites = []string{"c.doClose.pre", "c.doClose.teardown", "c.doClose.reader", "c.doClose.medias", "c.run.close",
@@ -123,6 +127,16 @@ func gen(seed uint64, tier string) Scenario {
 				sc.Behaviours[len(sc.Behaviours)-1] = Behaviour{Kind: "deaf-after"}
 				sc.RedirectLoop = false
 			}
+		}
+	}
+	// TLS underneath (hash-derived so that no other choice moves): mostly together with the tunnel,
+	// where two TLS connections have to be closed
+	if x := core.HS(seed, "c12.secure", "", 0) % 100; (sc.Tunnel != "" && x < 40) || x < 6 {
+		sc.Secure = true
+		// ... and in half of the tunnelled ones the server resets the GET half (only) at a seeded request
+		if y := core.HS(seed, "c12.rstget", "", 0); sc.Tunnel != "" && y%2 == 0 && len(sc.Behaviours) > 0 {
+			k := int((y >> 8) % uint64(len(sc.Behaviours)))
+			sc.Behaviours[k] = Behaviour{Kind: "rst", Arg: 2 + int((y>>16)%2)} // (Arg/2)%3 == 1: the GET half; Arg%2: answer first or not
 		}
 	}
 	// a UDP-multicast client (it plays; the scripted server answers SETUP with a group address and a
@@ -202,6 +216,7 @@ type fakeServer struct {
 	always401 bool
 	n401      int
 	tunGet    map[string]net.Conn // GET halves of HTTP tunnels by cookie
+	tunGetRaw map[string]*simnet.Conn
 }
 
 func (fs *fakeServer) behaviour() Behaviour {
@@ -254,6 +269,11 @@ func (fs *fakeServer) close() {
 // (GET = the channel the server writes to, POST = base64-encoded requests from the client).
 func (fs *fakeServer) handle(nc net.Conn) {
 	defer fs.wg.Done()
+	rawConn, _ := nc.(*simnet.Conn)
+	if fs.sc.Secure {
+		nc = tls.Server(nc, sys.ServerTLSConfig())
+		fs.w.Probe("tls_connection")
+	}
 	br := bufio.NewReader(nc)
 	nc.SetReadDeadline(time.Now().Add(5 * time.Minute))
 	if pk, err := br.Peek(4); err == nil && (string(pk) == "GET " || string(pk) == "POST") {
@@ -271,6 +291,10 @@ func (fs *fakeServer) handle(nc net.Conn) {
 				fs.tunGet = map[string]net.Conn{}
 			}
 			fs.tunGet[cookie] = nc
+			if fs.tunGetRaw == nil {
+				fs.tunGetRaw = map[string]*simnet.Conn{}
+			}
+			fs.tunGetRaw[cookie] = rawConn
 			fs.mu.Unlock()
 			fs.w.Probe("http_tunnel_get")
 			return // stays open: the POST half's handler writes to it (closed by fs.close)
@@ -292,17 +316,19 @@ func (fs *fakeServer) handle(nc net.Conn) {
 		tc := gortsplib.VerifNewServerHTTPTunnel(nc, br, get)
 		defer nc.Close()
 		defer get.Close()
-		raw, _ := nc.(*simnet.Conn)
-		fs.serveRTSP(tc, bufio.NewReader(tc), raw)
+		fs.mu.Lock()
+		getRaw := fs.tunGetRaw[cookie]
+		fs.mu.Unlock()
+		fs.serveRTSP(tc, bufio.NewReader(tc), rawConn, getRaw)
 		return
 	}
 	defer nc.Close()
-	raw, _ := nc.(*simnet.Conn)
-	fs.serveRTSP(nc, br, raw)
+	fs.serveRTSP(nc, br, rawConn, nil)
 }
 
 // serveRTSP: raw is the simulated socket the client's bytes arrive on (for "stops reading").
-func (fs *fakeServer) serveRTSP(nc net.Conn, br *bufio.Reader, raw *simnet.Conn) {
+// getRaw: the socket of the GET half when the conversation runs through the HTTP tunnel.
+func (fs *fakeServer) serveRTSP(nc net.Conn, br *bufio.Reader, raw, getRaw *simnet.Conn) {
 	c := conn.NewConn(br, nc)
 	sc := fs.sc
 	w := fs.w
@@ -576,8 +602,25 @@ func (fs *fakeServer) serveRTSP(nc net.Conn, br *bufio.Reader, raw *simnet.Conn)
 			if b.Arg%2 == 0 {
 				send(res)
 			}
-			if sc, ok := nc.(*simnet.Conn); ok {
-				sc.Reset()
+			// reset the connection; through the tunnel: the POST half, the GET half, or both
+			switch {
+			case getRaw == nil:
+				if raw != nil {
+					raw.Reset()
+				}
+			case (b.Arg/2)%3 == 0:
+				raw.Reset()
+			case (b.Arg/2)%3 == 1:
+				getRaw.Reset()
+				w.Probe("tunnel_get_half_reset")
+				// the POST half stays as it is: the client has to close it
+				select {
+				case <-fs.stop:
+				case <-time.After(2 * time.Minute):
+				}
+			default:
+				raw.Reset()
+				getRaw.Reset()
 			}
 			return
 		case "silent":
@@ -812,7 +855,7 @@ func run(t *testing.T, sc Scenario) *core.Result {
 	var summary map[string]any
 	res := sys.Run(t, opts, func(w *sys.World) {
 		w.ProbeInit("call_returned_error", "call_returned_ok", "reached_play", "reached_record", "client_terminated_itself", "calls_after_failure",
-			"udp_port_retry", "packets_received", "close_verified", "client_multicast", "multicast_setup", "multicast_packets_received")
+			"udp_port_retry", "packets_received", "close_verified", "tls_connection", "tunnel_get_half_reset", "client_multicast", "multicast_setup", "multicast_packets_received")
 		rootGID := core.GoID()
 		srvNode := w.Net.Node("srv", "10.0.0.1")
 		w.Net.AddHost("alias.example", "10.0.0.1")
@@ -832,6 +875,10 @@ func run(t *testing.T, sc Scenario) *core.Result {
 		cliNode := w.Net.Node("cli", cliIP)
 		c := &gortsplib.Client{Scheme: "rtsp", Host: "10.0.0.1:8554", ReadTimeout: ms(sc.ReadMS), WriteTimeout: ms(sc.WriteMS),
 			AnyPortEnable: sc.AnyPort, RequestBackChannels: sc.BackChan, UDPSourcePortRange: [2]uint16{20000, 20031}}
+		if sc.Secure {
+			c.Scheme = "rtsps"
+			c.TLSConfig = sys.ClientTLSConfig()
+		}
 		if sc.Tunnel == "http" {
 			c.Tunnel = gortsplib.TunnelHTTP
 			w.Probe("client_http_tunnel")
@@ -891,7 +938,11 @@ func run(t *testing.T, sc Scenario) *core.Result {
 			if sc.Creds {
 				user = "user:pa:ss@"
 			}
-			u, _ := base.ParseURL("rtsp://" + user + "10.0.0.1:8554/stream")
+			urlScheme := "rtsp"
+			if sc.Secure {
+				urlScheme = "rtsps"
+			}
+			u, _ := base.ParseURL(urlScheme + "://" + user + "10.0.0.1:8554/stream")
 			if err := c.Start(); err != nil {
 				w.Fail("c12/api-error start", "%v", err)
 				return
@@ -1120,7 +1171,7 @@ func init() {
 	f.Real = []string{"gortsplib.Client (client.go, client_media.go, client_format.go, client_reader.go, client_udp_listener.go), pkg/description, pkg/auth (sender), pkg/headers, pkg/base, pkg/conn"}
 	f.Simulated = []string{"the hostile server (scripted harness code built on pkg/base + pkg/conn)", "TCP/UDP sockets incl. UDP port-in-use failures (simnet)", "clock (fake), entropy"}
 	f.Excluded = []string{"HTTP / WebSocket tunnels and TLS towards the scripted server", "UDP-multicast"}
-	f.Rule = "scenario = client configuration (play or record; protocol forced udp / tcp / UDP-multicast or automatic; RTSP-over-HTTP tunnel in 15%; credentials in the URL or not; back channels; AnyPortEnable; seeded read/write timeouts; busy local UDP ports) x a per-request behaviour list for the scripted server: normal, one of 16 grammar/byte-level mutations of the response, field-level mutation (SDP control attributes / profiles / key-mgmt / Content-Base; Transport ports, interleaved ids, protocol, delivery, source, profile; Session; RTP-Info), dropped, duplicated or delayed response (around and beyond ReadTimeout), injected interleaved frames or server requests, close before/after the response, RST, silence, unexpected status codes incl. 401 with odd challenges, CSeq missing/wrong/duplicated, redirects (self, other host, unresolvable, non-RTSP, invalid), flood, sticky 401, deaf-after (answers, then stops reading; bounded window), multicast-specific SETUP answers (ports past 65535, missing / unresolvable / unicast destination); the client then runs its whole script regardless of errors, plus extra calls, then Close; non-trivial = at least one call returned an error and the post-Close census ran; distinct = distinct canonical event log"
+	f.Rule = "scenario = client configuration (play or record; protocol forced udp / tcp / UDP-multicast or automatic; RTSP-over-HTTP tunnel in 15%; rtsps (the scripted server speaks TLS) in 40% of the tunnelled and 6% of the other runs, resets of the POST half, the GET half or both; credentials in the URL or not; back channels; AnyPortEnable; seeded read/write timeouts; busy local UDP ports) x a per-request behaviour list for the scripted server: normal, one of 16 grammar/byte-level mutations of the response, field-level mutation (SDP control attributes / profiles / key-mgmt / Content-Base; Transport ports, interleaved ids, protocol, delivery, source, profile; Session; RTP-Info), dropped, duplicated or delayed response (around and beyond ReadTimeout), injected interleaved frames or server requests, close before/after the response, RST, silence, unexpected status codes incl. 401 with odd challenges, CSeq missing/wrong/duplicated, redirects (self, other host, unresolvable, non-RTSP, invalid), flood, sticky 401, deaf-after (answers, then stops reading; bounded window), multicast-specific SETUP answers (ports past 65535, missing / unresolvable / unicast destination); the client then runs its whole script regardless of errors, plus extra calls, then Close; non-trivial = at least one call returned an error and the post-Close census ran; distinct = distinct canonical event log"
 	f.Assumptions = []string{
 		"'within its timeouts': one API call may perform several request/response exchanges (OPTIONS, the request itself, an authenticated retry, an automatic transport switch), each bounded by ReadTimeout + WriteTimeout; the bound used is 16 exchanges + budget",
 		"the client keeps running its script after errors: calls after a failure only have to return (with or without error) within the bound",
